@@ -32,10 +32,10 @@ type UnitCfg struct {
 }
 
 type unitResult struct {
-	viol   *Violation
-	stats  map[string]int
-	sig    string
-	sample []string
+	viol       *Violation
+	stats      map[string]int
+	sig        string
+	sample     []string
 	infeasible string
 }
 
@@ -611,8 +611,8 @@ func runBpmSim(seed uint64, cfg UnitCfg, dir string) (res unitResult) {
 		lm := newLogManager(&dm)
 		lm.ActivateLogging()
 		bpm := buffer.NewBufferPoolManager(uint32(cfg.Frames), dm, lm)
-		model := map[int32][]byte{}   // live pages: latest bytes
-		pins := map[int32]int{}       // our pins
+		model := map[int32][]byte{}    // live pages: latest bytes
+		pins := map[int32]int{}        // our pins
 		held := map[int32]*page.Page{} // page objects we hold pins on
 		pinned := func() int {
 			n := 0
